@@ -42,6 +42,7 @@ def main():
             "demo_exit_without_change": conf.get("demo_without_change", {}).get("exit"),
         },
         "checks": {k: {"caught": v["caught"], "exit": v["exit"], "mechanisms": v["mechanisms"]} for k, v in conf.get("checks", {}).items()},
+        "checks_first_run": {k: {"caught": v.get("caught"), "exit": v.get("exit"), "mechanisms": v.get("mechanisms")} for k, v in conf.get("checks_first_run", {}).items()} or None,
         "run_against_repo": "git -C /repo apply /verif/seeded/%s/patch.diff && (cd /verif && ./check %s quick); git -C /repo checkout -- .   (tools/run_seed.sh does this and restores evidence/)" % (name, pid),
     }
     json.dump(meta, open(os.path.join(dst, "meta.json"), "w"), indent=1)
